@@ -35,7 +35,7 @@ def _c11(res):
 
 GEN = {
     # pid: (family, driver modes, Props module, theorems, aspects that are violations of THIS property, rule text)
-    "C01": ("c01", "", "Gvlean.Props.C01", ["Props.c01", "Props.c01_shape", "Props.c01_nan", "Props.c01_guard"], ["spec", "gen_fail", "build"],
+    "C01": ("c01", "together", "Gvlean.Props.C01", ["Props.c01", "Props.c01_shape", "Props.c01_nan", "Props.c01_guard"], ["spec", "gen_fail", "build"],
             "one struct per (gt|gte|lt|lte, documented numeric type incl. named, random representable bound incl. type extremes and 2^53+1), top level or nested 1-2 levels; values = type lattice (min, min+1, -1, 0, 1, max-1, max / float: +-0, denormal, +-max, +-Inf, quiet/signalling/negative NaN) plus N-1, N, N+1 (N +- 1ulp for floats)"),
     "C02": ("c02", "", "Gvlean.Props.C02", ["Props.c02", "Props.c02_check", "Props.c02_named", "Props.c02_switch_underlying"], ["spec", "gen_fail", "build"],
             "one struct per documented field type of required (all basic kinds, byte, rune, complex, pointer, any, error, interface{}, func, slices, arrays, map, chan) and a named type over each; values: zero, non-zero, nil vs empty non-nil, -0.0, NaN, 0+0i, buffered/empty channels; every type also declared through an alias (type A = T); markers on nested structs with an unmarked middle level and marked leaves below (compared as multisets of (rule, value))"),
